@@ -39,10 +39,10 @@ CLASSES = ["contracts.C02_gate:ChoiFromHs", "contracts.C02_gate:HsFromChoi",
            "contracts.C02_povm:PovmRoundTrip",
            "contracts.C02_gate:HsFromChoiTruncating", "contracts.C02_gate:ChoiVar", "contracts.C02_gate:HsFromKraus",
            "contracts.C02_gate:ConvertHs", "contracts.C02_gate:ProcessMatrix",
-           "contracts.C02_misc:ConvertVec", "contracts.C02_misc:MProcessConversions", "contracts.C02_misc:Linearity", "contracts.C02_misc:CompBasis"]
+           "contracts.C02_misc:ConvertVec", "contracts.C02_misc:MProcessConversions", "contracts.C02_misc:Linearity", "contracts.C02_misc:CompBasis", "contracts.C02_gate:KrausRoundTrip"]
 
 
 def jobs(tier, seed):
     return e2_jobs("C02", CLASSES, tier, seed)
 
-CLAIM = {'engine': 'E2-symtwin', 'level': 'proof', 'text': 'For every listed configuration the real conversion functions are executed unmodified over exact symbolic scalars; each postcondition (result == defining formula, alternative implementations agree, inverse pair == identity, truncation rule) is a verification condition over ALL real inputs, decided by exact polynomial normalisation and z3; refutations are replayed natively.', 'note': "all-inputs@config: universal over inputs, finite over configurations (systems 1q/1qt/2q[/qxqt], bases). Trusted: the numpy/scipy model (structural ops are numpy's own on object arrays), floats as exact reals, polynomial normaliser, z3. Kraus extraction is not under contract.", 'technique': 'contract-based deductive verification (symbolic execution of the real source -> VCs, normaliser + z3)'}
+CLAIM = {'engine': 'E2-symtwin', 'level': 'proof', 'text': 'For every listed configuration the real conversion functions are executed unmodified over exact symbolic scalars; each postcondition (result == defining formula, alternative implementations agree, inverse pair == identity, truncation rule) is a verification condition over ALL real inputs, decided by exact polynomial normalisation and z3; refutations are replayed natively.', 'note': "all-inputs@config: universal over inputs, finite over configurations (systems 1q/1qt/2q[/qxqt], bases). Trusted: the numpy/scipy model (structural ops are numpy's own on object arrays), floats as exact reals, polynomial normaliser, z3. Kraus extraction (eigendecomposition, sorting, phase convention) is checked on six concrete non-symmetric channels as a bounded stand-in, not counted as proved.", 'technique': 'contract-based deductive verification (symbolic execution of the real source -> VCs, normaliser + z3)'}
